@@ -4,5 +4,6 @@ CONSTANTS
   Backs = {"b1", "b2", "b3"}
   BackSeq <- MCBackSeq
   MethodExcluded = FALSE
+  PurgeEvictsLive = FALSE
   MaxOps = 12
 INVARIANTS EmitInv
